@@ -2,6 +2,30 @@ import CedarVerif.Lemmas.PartialSound2
 /- On a concrete request and a concrete store, partial interpretation of a fragment expression never leaves a residual. -/
 namespace Cedar
 
+theorem collectPV_noRes (f : Expr → PRes) (xs : List Expr) (h : ∀ x, x ∈ xs → ∀ r, f x ≠ .res r) :
+    match collectPV f xs with
+    | .ok pvs => ∃ vs : List Value, pvs = vs.map PartialValue.value
+    | .error r => ∀ r', r ≠ .res r' := by
+  induction xs with
+  | nil => exact ⟨[], rfl⟩
+  | cons x xs ih =>
+    have ih' := ih (fun y hy => h y (List.mem_cons_of_mem _ hy))
+    have hx := h x (List.mem_cons_self ..)
+    simp only [collectPV]
+    cases hfx : f x with
+    | val v =>
+      simp only
+      cases hc : collectPV f xs with
+      | error r => rw [hc] at ih'; simpa [Except.map] using ih'
+      | ok pvs =>
+        rw [hc] at ih'
+        obtain ⟨vs, hp⟩ := ih'
+        exact ⟨v :: vs, by simp [Except.map, hp]⟩
+    | res r => exact absurd hfx (hx r)
+    | err c => intro r'; simp
+    | fuel => intro r'; simp
+    | panic => intro r'; simp
+
 theorem noRes {e : Expr} (hf : Frag e) (req : Request) (es : Entities) (env : SlotEnv) :
     ∀ (m : Mapper) (n : Nat) (r : Expr), pinterp m (.ofConcrete req) (.ofConcrete es) env n e ≠ .res r := by
   induction hf with
@@ -50,7 +74,7 @@ theorem noRes {e : Expr} (hf : Frag e) (req : Request) (es : Entities) (env : Sl
       · cases applyUnary op _ <;> simp [PRes.ofResult]
       · simp_all
       · simp_all
-  | binaryApp op hop _ _ iha ihb =>
+  | binaryApp op _ _ iha ihb =>
     intro m n r
     cases n with
     | zero => simp [pinterp]
@@ -59,7 +83,7 @@ theorem noRes {e : Expr} (hf : Frag e) (req : Request) (es : Entities) (env : Sl
       simp only [pinterp]
       split
       · split
-        · rw [papplyBinary_storeFree _ es op hop]; cases applyBinary es op _ _ <;> simp [PRes.ofResult]
+        · rw [papplyBinary_ofConcrete]; cases applyBinary es op _ _ <;> simp [PRes.ofResult]
         · simp_all
         · simp_all
       · simp_all
@@ -114,5 +138,32 @@ theorem noRes {e : Expr} (hf : Frag e) (req : Request) (es : Entities) (env : Sl
       simp only [pinterp]
       repeat' split
       all_goals simp_all
+  | @set xs _ ih =>
+    intro m n r
+    cases n with
+    | zero => simp [pinterp]
+    | succ n =>
+      have hc := collectPV_noRes (pinterp m (.ofConcrete req) (.ofConcrete es) env n) xs (fun x hx r => ih x hx m n r)
+      simp only [pinterp]
+      cases hcc : collectPV (pinterp m (.ofConcrete req) (.ofConcrete es) env n) xs with
+      | error r' => rw [hcc] at hc; exact hc r
+      | ok pvs =>
+        rw [hcc] at hc
+        obtain ⟨vs, hp⟩ := hc
+        simp [hp, splitPV_values]
+  | @call fn args hfn _ _ ih =>
+    intro m n r
+    cases n with
+    | zero => simp [pinterp]
+    | succ n =>
+      have hc := collectPV_noRes (pinterp m (.ofConcrete req) (.ofConcrete es) env n) args (fun x hx r => ih x hx m n r)
+      simp only [pinterp]
+      cases hcc : collectPV (pinterp m (.ofConcrete req) (.ofConcrete es) env n) args with
+      | error r' => rw [hcc] at hc; exact hc r
+      | ok pvs =>
+        rw [hcc] at hc
+        obtain ⟨vs, hp⟩ := hc
+        simp only [hp, splitPV_values, pcallExt_ne_unknown hfn]
+        cases callExt fn vs <;> simp [PRes.ofResult]
 
 end Cedar
